@@ -1,7 +1,8 @@
 """C18 — Linked parameters stay mutually consistent.
 
 Four families of generated modules on a real SecNode/Dispatcher (vlib.node): StructParam layouts, FloatEnumParam
-label sets, Limit configurations, 1..3 HasOutputModule inputs on one HasControlledBy output.  Every operation of a
+label sets (catalogue + SI-scaled), Limit configurations over class hierarchies with check_<p> methods, inputs wired to
+1..3 HasControlledBy outputs; plus a correspondence-only stream for the labels argument of FloatEnumParam.  Every operation of a
 generated history is issued on the real code (dispatcher request or driver-side call/assignment); after every
 operation all linked parameter values and the update stream are recorded.  The Lean model replays the same history
 with the same oracle outputs (correspondence), the Lean monitors judge the recorded values (failing-input search).
@@ -15,37 +16,46 @@ from vlib.shrink import ddmin
 from vlib.node import Node
 
 META = {
-    'level_text': 'Theorems for all histories of client reads/writes and driver-side calls/assignments: struct_members_agree (struct[m] = '
-                  'member m after every operation, both layouts, any oracle outcome of the driver bodies incl. SECoP errors and arbitrary '
-                  'exceptions at any member position of a struct access), floatenum_consistent (value = valuedict[index] after every '
-                  'operation incl. driver-side assignment to the float itself; a write hands the driver an index whose value no other '
-                  'label is closer to) + closest_first_minimum (tie rule of min()), limits_enforced (an accepted write is inside every '
-                  'limit parameter current at that moment; an inverted limits pair is refused and changes nothing), single_controller '
-                  '(per output, any wiring of inputs to several outputs) + takeover_switches_off + outputs_independent (an operation on '
-                  'one output changes nothing of another) + controlled_by_names_active.  Models tied to frappy/extparams.py, '
-                  'params.Limit, modulebase.checkLimits and mixins.py by a correspondence run on real modules behind a real dispatcher; '
-                  'the Lean monitors judge the values recorded after every operation.',
+    'level_text': 'Theorems for all histories of client reads/writes and driver-side calls/assignments, with and without the omission of '
+                  'unchanged updates (omit_unchanged_within 0 / longer than the history; the default 0.1 s lies in between) and for any '
+                  'pending-error flags at start: struct_members_agree (struct[m] = member m after every operation; every layout: '
+                  'read_/write_<struct> both, one of them or none, own read_/write_<m> for any members; any oracle outcome of the driver '
+                  'bodies incl. SECoP errors and arbitrary exceptions at any member position of a struct access), floatenum_consistent '
+                  '(value = valuedict[index] after every operation; a write hands the driver an index whose value no other label is closer '
+                  'to; a driver-side assignment to the float leaves such an index, however close the assigned value is to the current one) '
+                  '+ closest_first_minimum (tie rule of min()) + labels_wellformed / floatenum_consistent_of_labels (the hypotheses about '
+                  'valuedict are facts about every label list FloatEnumParam.__init__ accepts), limits_enforced (for every class layout of '
+                  'the limit parameters and of programmer-written check_<p> methods along the MRO: an accepted write is inside every limit '
+                  'parameter current at that moment whenever the automatic check applies - in particular an inherited check_<p> never '
+                  'switches it off; an inverted limits pair is refused and changes nothing) + limits_enforced_plain, single_controller (per '
+                  'output, any wiring of inputs to several outputs) + takeover_switches_off + outputs_independent + '
+                  'controlled_by_names_active.  Models tied to frappy/extparams.py, params.Limit, modulebase.__init_subclass__/checkLimits '
+                  'and mixins.py by a correspondence run on real modules behind a real dispatcher (values, update stream, pending-error '
+                  'flags after every operation); the Lean monitors judge the values recorded after every operation.',
     'level_note': 'Trusted: Lean kernel + axioms propext/Classical.choice/Quot.sound; values are exact rationals (integers over a common '
-                  'denominator) - binary64 subtraction/comparison is assumed to agree on the generated values; driver method bodies are '
-                  'scripted oracles (value / None / SECoP error / ValueError, KeyError, ZeroDivisionError).',
+                  'denominator) - binary64 subtraction/comparison is assumed to agree on the generated values; driver method bodies and '
+                  'programmer-written check_<p> methods are scripted oracles (value / None / True / SECoP error / ValueError, KeyError, '
+                  'ZeroDivisionError); the conversion of a label text to a number is an oracle (taken from the class itself).',
     'trusted': [
         'float distance comparison: abs(vdict[i] - x) compared in binary64 agrees with the exact rational comparison on the generated '
-        'values (dyadic values are exact; for label-derived values the generator keeps x away from near-ties)',
+        'values (dyadic values and one-ulp / 2^-k neighbours of label values are exact; otherwise the generator keeps x away from near-ties)',
         'FloatRange.validate tolerance band (values outside the range by less than the resolution are clamped) is not modelled; the '
-        'generator keeps out-of-range values clearly outside',
+        'generator keeps out-of-range values clearly outside (at every scale)',
         'driver glue: which clause applies to a control operation (take-over by input k / by the output / none) is read off the '
-        'operation and the flags recorded before it',
+        'operation and the flags recorded before it; which check_<p> returned True is recorded by the scripted check methods',
+        'the two extremes of omit_unchanged_within (0 and 10^6 s) stand for every timing under the default window',
     ],
     'modelled_not_verified': [
-        'HasAccessibles.__init_subclass__ read/write wrappers and Module.announceUpdate (callbacks, update message) as used by the '
-        'linked parameters, with omit_unchanged_within = 0',
+        'HasAccessibles.__init_subclass__ read/write wrappers and Module.announceUpdate (callbacks, update message, omission of '
+        'unchanged updates, readerror / never-announced flags) as used by the linked parameters',
         'Dispatcher._setParameterValue/_getParameterValue (import + validate, then write_/read_)',
         'StructOf / FloatRange / EnumType / LimitsType validation of well-formed values',
     ],
     'assumptions': [
-        'user-written read_/write_ bodies are oracles: they return a value of the datatype, None, or raise',
+        'user-written read_/write_/check_ bodies are oracles: they return a value of the datatype, None (True), or raise',
         'control_active and controlled_by are changed only through the mixin methods (they are readonly for clients)',
-        'sequential histories (one request or driver call at a time)',
+        'sequential histories (one request or driver call at a time); start-up with configured values (writeInitParams) is not part of a history',
+        'the member names of a struct are distinct (keys of a dict)',
     ],
 }
 
@@ -140,10 +150,22 @@ def cleanup_nodes():
     _nodes.clear()
 
 
-def new_node(cfg):
+OMIT_WINDOW = 1e6       # seconds: every announcement of an unchanged value (without a pending error) is omitted
+OMIT_MODELLED = {'floatenum', 'limits', 'control', 'struct'}   # families whose model covers the omission of unchanged updates (all; a family missing here would be judged only)
+
+
+def pending(pobj):
+    """the next announcement of this parameter cannot be omitted as unchanged: an error is pending, or it was never
+    announced (timestamp 0: no window is open)"""
+    return pobj.readerror is not None or not pobj.timestamp
+
+
+def new_node(cfg, omit=False):
+    """omit: run with `omit_unchanged_within` practically infinite instead of 0 (frappy's default is 0.1 s: whether an
+    unchanged value is announced again - callbacks included - depends on timing; the two extremes are deterministic)"""
     if len(_nodes) >= 50:
         cleanup_nodes()
-    node = Node(cfg, omit_unchanged_within=0)
+    node = Node(cfg, omit_unchanged_within=OMIT_WINDOW if omit else 0)
     _nodes.append(node)
     if node.errors:
         raise RuntimeError(f'node errors: {node.errors}')
@@ -156,6 +178,14 @@ def new_node(cfg):
 # ----------------------------------------------------------------------------------------
 # struct parameters
 # ----------------------------------------------------------------------------------------
+def struct_case(case):
+    """cases recorded before the mixed layouts were generated (corpus): read_<struct> and write_<struct> both or neither"""
+    if 'hasRS' in case:
+        return case
+    ops = [op[:6] + ['fail:secop'] + op[6:] if op[0] == 'writeMember' and len(op) == 7 else op for op in case['ops']]
+    return dict(case, hasRS=case['combined'], hasWS=case['combined'], ops=ops)
+
+
 def build_struct_class(case, cur):
     from frappy.core import FloatRange, Module, Parameter
     from frappy.extparams import StructParam
@@ -176,20 +206,22 @@ def build_struct_class(case, cur):
             return None
         return v
 
-    if case['combined']:
-        def read_ctrl(self):
-            return rd(cur['rA'].pop(0)) if cur.get('rA') else rd(None)
+    def read_ctrl(self):
+        return rd(cur['rA'].pop(0)) if cur.get('rA') else rd(None)
 
-        def write_ctrl(self, value):
-            cur.setdefault('written', []).append(dict(value))
-            return wr(cur['wA'].pop(0)) if cur.get('wA') else wr(None)
+    def write_ctrl(self, value):
+        cur.setdefault('written', []).append(dict(value))
+        return wr(cur['wA'].pop(0)) if cur.get('wA') else wr(None)
+    if case['hasRS']:
         ns['read_ctrl'] = read_ctrl
+    if case['hasWS']:
         ns['write_ctrl'] = write_ctrl
-    else:
-        for m in case['hasR']:
-            ns['read_' + prefix + m] = lambda self, m=m: rd(cur.get('rB', {}).get(m))
-        for m in case['hasW']:
-            ns['write_' + prefix + m] = lambda self, value, m=m: wr(cur.get('wB', {}).get(m))
+    # programmer-written member methods: in the per-member layout the usual thing, in the combined layout they take the
+    # place of the generated ones
+    for m in case['hasR']:
+        ns['read_' + prefix + m] = lambda self, m=m: rd(cur.get('rB', {}).get(m))
+    for m in case['hasW']:
+        ns['write_' + prefix + m] = lambda self, value, m=m: wr(cur.get('wB', {}).get(m))
     return type('StructMod', (Module,), ns)
 
 
@@ -209,8 +241,9 @@ def obs_dict(members, d):
 def impl_struct(case):
     """run the history on the real code -> [obs after init, obs after op 1, ...]"""
     cur = {}
+    case = struct_case(case)
     cls = build_struct_class(case, cur)
-    node, conn = new_node({'m': {'cls': cls, 'description': 'x'}})
+    node, conn = new_node({'m': {'cls': cls, 'description': 'x'}}, case.get('omit', False))
     mod = node.modules['m']
     members, prefix = case['members'], case['prefix']
 
@@ -223,6 +256,7 @@ def impl_struct(case):
                 evs.append(['mem', par[1 + len(prefix):], num(val)])
         return {'struct': obs_dict(members, mod.parameters['ctrl'].value),
                 'mem': [[m, num(mod.parameters[prefix + m].value)] for m in members],
+                'sP': pending(mod.parameters['ctrl']), 'mP': [pending(mod.parameters[prefix + m]) for m in members],
                 'evs': evs, 'ok': ok, 'exc': exc}
 
     trace = [snapshot(True)]
@@ -256,6 +290,7 @@ def impl_struct(case):
                 cur['wA'] = [op[3] if isinstance(op[3], str) else dict_in(op[3])]
                 cur['rA'] = [op[4] if is_fail(op[4]) else dict_in(op[4])]
                 cur['wB'] = {op[1]: op[5]}
+                cur['rB'] = {op[1]: op[6]}
                 if via == 'req':
                     ok, exc = reply_outcome(node.request(conn, 'change', 'm:_' + prefix + op[1], op[2]))
                 else:
@@ -274,9 +309,11 @@ def impl_struct(case):
     return trace
 
 
-def wire_struct(case):
-    return {'p': 'C18', 'k': 'struct', 'members': case['members'], 'combined': case['combined'],
-            'hasR': case['hasR'], 'hasW': case['hasW'], 'ops': [op[:-1] for op in case['ops']]}
+def wire_struct(case, trace):
+    case = struct_case(case)
+    return {'p': 'C18', 'k': 'struct', 'members': case['members'], 'hasRS': case['hasRS'], 'hasWS': case['hasWS'],
+            'hasR': case['hasR'], 'hasW': case['hasW'], 'omit': bool(case.get('omit')), 'sP0': trace[0]['sP'],
+            'mP0': [m for m, p in zip(case['members'], trace[0]['mP']) if p], 'ops': [op[:-1] for op in case['ops']]}
 
 
 def judge_struct_req(case, trace):
@@ -286,10 +323,14 @@ def judge_struct_req(case, trace):
 
 def gen_struct(rng, big):
     members = rng.choice([['p'], ['p', 'i'], ['p', 'i', 'd'], ['a', 'b', 'c', 'dd']])
-    combined = rng.random() < 0.5
+    # which of read_<struct> / write_<struct> the programmer wrote: both, one of them (the other is the plain wrapper), neither
+    hasRS, hasWS = rng.choice([(True, True)] * 7 + [(True, False)] * 2 + [(False, True)] * 2 + [(False, False)] * 9)
+    combined = hasRS or hasWS
     prefix = rng.choice(['', 'pid_', 'x'])
-    hasR = [m for m in members if rng.random() < 0.7]
-    hasW = [m for m in members if rng.random() < 0.7]
+    # programmer-written member methods: the rule in the per-member layout, the exception in the combined one
+    pm = 0.7 if not combined else rng.choice([0, 0, 0.3])
+    hasR = [m for m in members if rng.random() < pm]
+    hasW = [m for m in members if rng.random() < pm]
 
     def val():
         return rng.choice([0, 1, 2, 3, 5, 7, -1, -4, 9, 100])
@@ -349,7 +390,7 @@ def gen_struct(rng, big):
             ops.append(['readMember', rng.choice(members), rdict(), rval(), via])
         elif r < 0.68:
             m, v = rng.choice(members), val()
-            ops.append(['writeMember', m, v, wdict(full()), rdict(), wval(v), via])
+            ops.append(['writeMember', m, v, wdict(full()), rdict(), wval(v), rval(), via])
         elif r < 0.84:
             v = full()
             if rng.random() < 0.08 and len(members) > 1:
@@ -357,8 +398,8 @@ def gen_struct(rng, big):
             ops.append(['assignStruct', v, 'drv'])
         else:
             ops.append(['assignMember', rng.choice(members), val(), 'drv'])
-    return {'kind': 'struct', 'members': members, 'prefix': prefix, 'combined': combined,
-            'hasR': [] if combined else hasR, 'hasW': [] if combined else hasW, 'ops': ops}
+    return {'kind': 'struct', 'members': members, 'prefix': prefix, 'combined': combined, 'hasRS': hasRS, 'hasWS': hasWS,
+            'hasR': hasR, 'hasW': hasW, 'ops': ops}
 
 
 def sig_struct(case, bad):
@@ -417,13 +458,13 @@ def impl_floatenum(case):
     """-> (vdict [[idx, float]], lo, hi, trace)"""
     cur = {}
     cls = build_fe_class(case, cur)
-    node, conn = new_node({'m': {'cls': cls, 'description': 'x'}})
+    node, conn = new_node({'m': {'cls': cls, 'description': 'x'}}, case.get('omit', False))
     mod = node.modules['m']
     pobj = mod.parameters['x']
     vdict = [[int(k), float(v)] for k, v in pobj.valuedict.items()]
     lo, hi = pobj.datatype.min, pobj.datatype.max
 
-    def snapshot(ok, write=None, exc=None):
+    def snapshot(ok, write=None, exc=None, assign=None):
         evs = []
         for par, val in updates(conn, 'm'):
             if par == '_x':
@@ -431,14 +472,15 @@ def impl_floatenum(case):
             elif par == '_x_idx':
                 evs.append(['idx', int(val)])
         # what a client reads: the reply of a `read` request is the cache entry
-        return {'idx': int(mod.parameters['x_idx'].value), 'value': float(pobj.value), 'evs': evs, 'ok': ok,
-                'exc': exc, 'write': write, 'selected': cur.get('selected')}
+        return {'idx': int(mod.parameters['x_idx'].value), 'value': float(pobj.value),
+                'idxErr': pending(mod.parameters['x_idx']), 'valErr': pending(pobj), 'evs': evs, 'ok': ok,
+                'exc': exc, 'write': write, 'assign': assign, 'selected': cur.get('selected')}
 
     trace = [snapshot(True)]
     for op in case['ops']:
         kind, via = op[0], op[-1]
         cur.clear()
-        ok, write, exc = True, None, None
+        ok, write, exc, assign = True, None, None, None
         try:
             if kind == 'writeFloat':
                 write = float(op[1])
@@ -470,13 +512,14 @@ def impl_floatenum(case):
                 mod.x_idx = op[1]
                 ok = mod.parameters['x_idx'].readerror is None
             elif kind == 'assignFloat':
+                assign = float(op[1])
                 mod.x = op[1]
                 ok = pobj.readerror is None
             else:
                 raise ValueError(kind)
         except Exception as e:
             ok, exc = False, EXC_NAMES.get(type(e).__name__)
-        trace.append(snapshot(ok, write, exc))
+        trace.append(snapshot(ok, write, exc, assign))
     return vdict, lo, hi, trace
 
 
@@ -503,8 +546,10 @@ def fe_requests(case, vdict, lo, hi, trace):
             ops.append(op[:-1])
     wvd = [[i, sc(v)] for i, v in vdict]
     model = {'p': 'C18', 'k': 'floatenum', 'vdict': wvd, 'lo': sc(lo), 'hi': sc(hi), 'hasR': case['hasR'],
-             'hasW': case['hasW'], 'idx0': trace[0]['idx'], 'ops': ops}
-    jtrace = [{'write': None if t['write'] is None else sc(t['write']), 'ok': t['ok'], 'selected': t['selected'],
+             'hasW': case['hasW'], 'omit': bool(case.get('omit')), 'idx0': trace[0]['idx'], 'idxErr0': trace[0]['idxErr'],
+             'valErr0': trace[0]['valErr'], 'ops': ops}
+    jtrace = [{'write': None if t['write'] is None else sc(t['write']),
+               'assign': None if t.get('assign') is None else sc(t['assign']), 'ok': t['ok'], 'selected': t['selected'],
                'idx': t['idx'], 'value': sc(t['value']) if Fraction(t['value']) * den % 1 == 0 else None}
               for t in trace]
     # a value that is not on the grid of the case cannot be a value of the valuedict: keep it visible as lo - 1
@@ -512,7 +557,7 @@ def fe_requests(case, vdict, lo, hi, trace):
         if t['value'] is None:
             t['value'] = sc(lo) - 1
     judge = {'p': 'C18', 'k': 'judge_floatenum', 'vdict': wvd, 'trace': jtrace}
-    canon = [{'idx': t['idx'], 'value': jt['value'],
+    canon = [{'idx': t['idx'], 'value': jt['value'], 'idxErr': t['idxErr'], 'valErr': t['valErr'],
               'evs': [[e[0], sc(e[1]) if e[0] == 'value' else e[1]] for e in t['evs']], 'ok': t['ok'], 'exc': t['exc']}
              for t, jt in zip(trace, jtrace)]
     return model, judge, canon
@@ -534,13 +579,55 @@ LABEL_SETS = [
 ]
 
 
+def scaled_label_set(rng):
+    """a label set in the '<number><prefix><unit>' form anywhere on the scale of SI prefixes the class knows (quecto .. quetta):
+    the behaviour of the float/enum pair must not depend on the magnitude of the values (no absolute tolerances)"""
+    from frappy.extparams import FloatEnumParam
+    table = FloatEnumParam.PREFIXES
+    prefixes = sorted((p for p in table if p != 'µ'), key=lambda p: table[p])
+    unit = rng.choice(['A', 'V', 'W', 'Hz', 'T', 'Ohm'])
+    start = rng.randrange(len(prefixes))
+    window = prefixes[start:start + rng.randint(1, 3)]
+    numbers = ['1', '2', '5', '10', '20', '50', '100', '200', '500', '2.5', '.5', '1.5']
+    n = rng.randint(1, 6)
+    labels = []
+    while len(labels) < n:
+        lab = rng.choice(numbers) + rng.choice(['', ' ']) + rng.choice(window) + unit
+        if lab not in labels:
+            labels.append(lab)
+    if rng.random() < 0.6:       # usual: ascending (the values as the class itself derives them from the labels)
+        try:
+            vd = FloatEnumParam('g', labels, unit).valuedict
+            labels = [lab for _, lab in sorted(enumerate(labels), key=lambda e: vd[e[0]])]
+        except Exception:
+            pass
+    return labels, unit, False
+
+
+def near_value(rng, v):
+    """a float next to v: one ulp, a relative offset of 2^-k, an absolute offset of 10^-e"""
+    import math
+    s = rng.choice([-1, 1])
+    r = rng.random()
+    if r < 0.3:
+        return math.nextafter(v, s * math.inf)
+    if r < 0.7:
+        return v * (1 + s * 2.0 ** -rng.choice([20, 30, 40, 50]))
+    return v + s * 10.0 ** -rng.choice([6, 9, 10, 12, 15])
+
+
 def gen_floatenum(rng, big):
-    labels, unit, dyadic = rng.choice(LABEL_SETS)
+    scaled = rng.random() < 0.3
+    labels, unit, dyadic = scaled_label_set(rng) if scaled else rng.choice(LABEL_SETS)
     labels = json.loads(json.dumps(labels))
     hasR, hasW = rng.random() < 0.5, rng.random() < 0.6
     # the values, to draw requests from (a throw-away class: the generator may look, the verdict is Lean's)
     from frappy.extparams import FloatEnumParam
-    p = FloatEnumParam('g', [tuple(e) if isinstance(e, list) else e for e in labels], unit)
+    try:
+        p = FloatEnumParam('g', [tuple(e) if isinstance(e, list) else e for e in labels], unit)
+    except Exception:
+        # the tree under test refuses a label list of the catalogue: not a reason to stop - the labels stream shows it
+        return {'kind': 'labels', 'labels': labels, 'unit': unit, 'ops': []}
     vd = dict(p.valuedict)
     vals = sorted(set(vd.values()))
     idxs = list(vd)
@@ -550,10 +637,17 @@ def gen_floatenum(rng, big):
         d = sorted(abs(Fraction(v) - Fraction(x)) for v in vals)
         return len(d) > 1 and d[1] != d[0] and (d[1] - d[0]) < Fraction(1, 10 ** 6) * max(d[1], Fraction(1, 10 ** 30))
 
-    def xval():
+    def xval(for_write=False):
         r = rng.random()
-        if r < 0.2:
+        if r < 0.15:
             return rng.choice(vals)
+        if r < 0.3:
+            # right next to an allowed value (float comparisons must be exact: equality and "closest").  For a client
+            # write only inside the range: FloatRange.validate clamps values outside by less than the resolution (not modelled)
+            x = near_value(rng, rng.choice(vals))
+            if for_write and not lo <= x <= hi:
+                return rng.choice(vals)
+            return x
         if r < 0.45 and len(vals) > 1:
             i = rng.randrange(len(vals) - 1)
             a, b = vals[i], vals[i + 1]
@@ -565,7 +659,7 @@ def gen_floatenum(rng, big):
                 return lo + (hi - lo) * rng.randrange(0, 65) / 64
             return lo + (hi - lo) * rng.random()
         if r < 0.9:
-            return rng.choice([lo - 1 - abs(lo), hi + 1 + abs(hi), hi * 2 + 3, lo - 100.0])
+            return rng.choice([lo - 1 - abs(lo), hi + 1 + abs(hi), hi + 3 + 2 * abs(hi), lo - 100.0 - abs(lo)])      # clearly outside, at every scale
         return rng.choice([lo, hi])
 
     def widx(i):
@@ -587,9 +681,9 @@ def gen_floatenum(rng, big):
         if r >= 0.9 and not with_assign_float:
             r = rng.random() * 0.9
         if r < 0.4:
-            x = xval()
+            x = xval(True)
             while not dyadic and near_tie(x):
-                x = xval()
+                x = xval(True)
             # the driver mostly takes the selected index over
             w = rng.choice(['none', 'none', 'none', fail_tag(rng), rng.choice(idxs)])
             ops.append(['writeFloat', x, w, via])
@@ -604,8 +698,101 @@ def gen_floatenum(rng, big):
             ops.append(['assignIdx', rng.choice(idxs + [max(idxs) + 1] * (rng.random() < 0.15)), 'drv'])
         else:
             x = xval()
+            while not dyadic and near_tie(x):
+                x = xval()
             ops.append(['assignFloat', x, 'drv'])
-    return {'kind': 'floatenum', 'labels': labels, 'unit': unit, 'hasR': hasR, 'hasW': hasW, 'ops': ops}
+    return {'kind': 'floatenum', 'labels': labels, 'unit': unit, 'scaled': scaled, 'hasR': hasR, 'hasW': hasW, 'ops': ops}
+
+
+# ---- the labels argument of FloatEnumParam (glue in front of the float/enum model: labels -> enum members, valuedict, range)
+def label_value(label, unit):
+    """the number the class itself derives from a label text (oracle of the model: decimal text -> float is Python's float())"""
+    from frappy.extparams import FloatEnumParam
+    from frappy.errors import ProgrammingError
+    try:
+        return float(FloatEnumParam('g', [label], unit).valuedict[0])
+    except ProgrammingError:
+        return None
+
+
+def impl_labels(case):
+    from frappy.extparams import FloatEnumParam
+    labels = [tuple(e) if isinstance(e, list) else e for e in case['labels']]
+    try:
+        p = FloatEnumParam('g', labels, case['unit'])
+    except Exception:
+        return {'ok': False}
+    return {'ok': True, 'edict': sorted([m.name, int(m.value)] for m in p.enumtype._enum.members),
+            'vdict': [[int(k), float(v)] for k, v in p.valuedict.items()], 'lo': float(p.datatype.min), 'hi': float(p.datatype.max)}
+
+
+def labels_requests(case, impl):
+    """-> (model request, canonical impl observation): all numbers scaled to integers by their common denominator"""
+    specs = []
+    for e in case['labels']:
+        if isinstance(e, str):
+            idx, label, value = None, e, None
+        elif isinstance(e[0], str):
+            idx, label, value = None, e[0], (e[1] if len(e) > 1 else None)
+        else:
+            idx, label, value = e[0], e[1], (e[2] if len(e) > 2 else None)
+        specs.append([idx, label, value, label_value(label, case['unit'])])
+    nums = [x for sp in specs for x in sp[2:] if x is not None]
+    den = 1
+    for x in nums:
+        den = max(den, Fraction(float(x)).denominator)
+
+    def sc(x):
+        f = Fraction(float(x)) * den
+        assert f.denominator == 1
+        return int(f)
+    model = {'p': 'C18', 'k': 'labels', 'specs': [[i, lab, None if v is None else sc(v), None if d is None else sc(d)]
+                                                  for i, lab, v, d in specs]}
+    canon = dict(impl)
+    if impl['ok']:
+        canon = {'ok': True, 'edict': impl['edict'], 'vdict': [[i, sc(v)] for i, v in impl['vdict']], 'lo': sc(impl['lo']),
+                 'hi': sc(impl['hi'])}
+    return model, canon
+
+
+def gen_labels(rng, big):
+    """label lists in all forms the constructor accepts - bare labels, (label,), (label, value), (index, label),
+    (index, label, value) - mostly valid; now and then an index or a label twice, a label that is no number, no labels at all"""
+    unit = rng.choice(['', 'V', 'A', 'm'])
+    n = rng.choice([0, 1, 2, 3, 3, 4, 5, 6]) if rng.random() < 0.1 else rng.randint(1, 6)
+    texts = ['1', '2', '5', '10', '20', '0.5', '2.5', '-1', '100', '50']
+    prefixes = ['', '', 'm', 'k', 'u', 'µ', 'n', 'M']
+    words = ['lo', 'hi', 'mid', 'off', 'max']
+    labels = []
+    used_idx, nextidx = set(), 0
+    for _ in range(n):
+        numeric = rng.random() < 0.7
+        label = (rng.choice(texts) + rng.choice(['', ' ']) + rng.choice(prefixes) + unit) if numeric else rng.choice(words)
+        if rng.random() < 0.85:
+            while any((lab if isinstance(lab, str) else lab[0] if isinstance(lab[0], str) else lab[1]) == label for lab in labels):
+                label += "'"
+        r = rng.random()
+        with_value = rng.random() < (0.15 if numeric else 0.93)
+        value = rng.choice([0.25, 0.5, 1.0, 1.5, 2.0, 3.0, 4.0, 8.0, -2.0, 0.0, 100.0, 1e-3, 5]) if with_value else None
+        if r < 0.45:
+            idx = None
+        else:
+            idx = rng.choice([nextidx, nextidx + 1, nextidx + rng.randint(2, 5), rng.randint(0, 8), rng.randint(-3, 8)])
+            if rng.random() < 0.9:
+                while idx in used_idx:
+                    idx += 1
+        eff = nextidx if idx is None else idx
+        used_idx.add(eff)
+        nextidx = eff + 1
+        if idx is None and value is None:
+            labels.append(label if rng.random() < 0.8 else [label])
+        elif idx is None:
+            labels.append([label, value])
+        elif value is None:
+            labels.append([idx, label])
+        else:
+            labels.append([idx, label, value])
+    return {'kind': 'labels', 'labels': labels, 'unit': unit, 'ops': []}
 
 
 def sig_floatenum(case, bad, trace):
@@ -625,33 +812,75 @@ def sig_floatenum(case, bad, trace):
 LSCALE = 4
 
 
+def limits_case(case):
+    """cases recorded before the class layout was part of a case (corpus): one class declaring everything, no check methods"""
+    if 'layers' in case:
+        return case
+    ops = [[op[0], op[1], [], op[2], op[3]] if op[0] == 'write' else op for op in case['ops']]
+    return dict(case, layers=[[case['has_min'], case['has_max'], case['has_limits'], False, False]], wlayer=0, ops=ops)
+
+
 def build_limits_class(case, cur):
+    """the class hierarchy of the case.  case['layers'] = the classes in MRO order (most derived first), each
+    [declares <p>_min, declares <p>_max, declares <p>_limits, defines check_<p>, is a plain mixin]; the last one declares <p>"""
     from frappy.core import FloatRange, IntRange, Module, Parameter, Writable
     from frappy.params import Limit
-    from frappy.errors import HardwareError
     p = case['pname']
+    layers = case['layers']
+    n = len(layers)
     lo, hi = case['lo'] / LSCALE, case['hi'] / LSCALE
     dt = IntRange(int(lo), int(hi)) if case['int'] else FloatRange(lo, hi)
-    ns = {p: Parameter('base', dt, readonly=False, default=case['value0'] / LSCALE)}
-    if p == 'target':
-        ns['value'] = Parameter('value', dt, default=case['value0'] / LSCALE)
-    for post in ('min', 'max', 'limits'):
-        if case['has_' + post]:
-            ns[f'{p}_{post}'] = Limit()
-    if case['hasW']:
-        def write_p(self, value):
-            w = cur.get('w')
-            if w is None or is_fail(w):
-                raise_kind(w)
-            return None if w == 'none' else w / LSCALE
-        ns['write_' + p] = write_p
-    return type('LimMod', (Writable if p == 'target' else Module,), ns)
+
+    def write_p(self, value):
+        w = cur.get('w')
+        if w is None or is_fail(w):
+            raise_kind(w)
+        return None if w == 'none' else w / LSCALE
+
+    def make_check(i):
+        def check(self, value):
+            c = cur.get('c') or []
+            out = c[i] if i < len(c) else 'pass'
+            if out == 'stop':
+                cur['stopAt'] = i
+                return True
+            if is_fail(out):
+                raise_kind(out)
+            return None
+        return check
+
+    def body(i):
+        dmin, dmax, dlim, own, _ = layers[i]
+        ns = {}
+        if i == n - 1:
+            ns[p] = Parameter('base', dt, readonly=False, default=case['value0'] / LSCALE)
+            if p == 'target':
+                ns['value'] = Parameter('value', dt, default=case['value0'] / LSCALE)
+        for post, decl in (('min', dmin), ('max', dmax), ('limits', dlim)):
+            if decl:
+                ns[f'{p}_{post}'] = Limit()
+        if own:
+            ns['check_' + p] = make_check(i)
+        if case['hasW'] and i == case['wlayer']:
+            ns['write_' + p] = write_p
+        return ns
+
+    cls = Writable if p == 'target' else Module
+    pending = []      # plain mixins, combined by the next class towards the module class
+    for i in reversed(range(n)):
+        if layers[i][4]:
+            pending.insert(0, type(f'LimMixin{i}', (), body(i)))
+        else:
+            cls = type(f'LimMod{i}', tuple(pending) + (cls,), body(i))
+            pending = []
+    assert not pending
+    return cls
 
 
 def impl_limits(case):
     cur = {}
     cls = build_limits_class(case, cur)
-    node, conn = new_node({'m': {'cls': cls, 'description': 'x'}})
+    node, conn = new_node({'m': {'cls': cls, 'description': 'x'}}, case.get('omit', False))
     mod = node.modules['m']
     p = case['pname']
 
@@ -678,9 +907,11 @@ def impl_limits(case):
                 evs.append(['max', sc(val)])
             elif par == ex(p + '_limits'):
                 evs.append(['limits', sc(val[0]), sc(val[1])])
-        return dict(rec, ok=ok, exc=exc, before=before, after=limits(), value=sc(getattr(mod, p)), evs=evs)
+        errs = [pending(mod.parameters[n]) if n in mod.parameters else False
+                for n in (p, p + '_min', p + '_max', p + '_limits')]
+        return dict(rec, ok=ok, exc=exc, before=before, after=limits(), value=sc(getattr(mod, p)), evs=evs, errs=errs)
 
-    norec = {'write': None, 'echo': False, 'setLimits': None}
+    norec = {'write': None, 'echo': False, 'setLimits': None, 'stopAt': None}
     trace = [snapshot(True, limits(), norec)]
     for op in case['ops']:
         kind, via = op[0], op[-1]
@@ -690,9 +921,10 @@ def impl_limits(case):
         ok, exc = True, None
         try:
             if kind == 'write':
-                cur['w'] = op[2]
+                cur['c'] = op[2]
+                cur['w'] = op[3]
                 rec['write'] = op[1]
-                rec['echo'] = (not case['hasW']) or op[2] == 'none' or op[2] == op[1]
+                rec['echo'] = (not case['hasW']) or op[3] == 'none' or op[3] == op[1]
                 if via == 'req':
                     ok, exc = reply_outcome(node.request(conn, 'change', 'm:' + ex(p), op[1] / LSCALE))
                 else:
@@ -723,30 +955,37 @@ def impl_limits(case):
                 raise ValueError(kind)
         except Exception as e:
             ok, exc = False, EXC_NAMES.get(type(e).__name__)
+        rec['stopAt'] = cur.get('stopAt')      # observed: the check method at this MRO position returned True
         trace.append(snapshot(ok, before, rec, exc))
     return trace
 
 
-def wire_limits(case):
-    return {'p': 'C18', 'k': 'limits', 'lo': case['lo'], 'hi': case['hi'], 'hasMin': case['has_min'],
-            'hasMax': case['has_max'], 'hasLimits': case['has_limits'], 'hasW': case['hasW'],
+def wire_layers(case):
+    return [layer[:4] for layer in case['layers']]
+
+
+def wire_limits(case, trace):
+    return {'p': 'C18', 'k': 'limits', 'lo': case['lo'], 'hi': case['hi'], 'layers': wire_layers(case), 'hasW': case['hasW'],
+            'omit': bool(case.get('omit')), 'errs0': trace[0]['errs'],
             'value0': case['value0'], 'ops': [op[:-1] for op in case['ops']]}
 
 
-def judge_limits_req(trace):
-    keys = ('write', 'echo', 'setLimits', 'ok', 'before', 'after', 'value')
-    return {'p': 'C18', 'k': 'judge_limits', 'trace': [{k: t[k] for k in keys} for t in trace]}
+def judge_limits_req(case, trace):
+    keys = ('write', 'stopAt', 'echo', 'setLimits', 'ok', 'before', 'after', 'value')
+    return {'p': 'C18', 'k': 'judge_limits', 'layers': wire_layers(case), 'trace': [{k: t[k] for k in keys} for t in trace]}
 
 
 def limits_canon(case, t):
     """observation compared with the model: the model carries all three limit parameters, the code only those that exist"""
     return {'value': t['value'], 'min': t['after']['min'], 'max': t['after']['max'], 'limits': t['after']['limits'],
-            'evs': t['evs'], 'ok': t['ok'], 'exc': t['exc']}
+            'errs': t['errs'], 'evs': t['evs'], 'ok': t['ok'], 'exc': t['exc']}
 
 
 def model_limits_canon(case, s):
     return {'value': s['value'], 'min': s['min'] if case['has_min'] else None, 'max': s['max'] if case['has_max'] else None,
-            'limits': s['limits'] if case['has_limits'] else None, 'evs': s['evs'], 'ok': s['ok'], 'exc': s['exc']}
+            'limits': s['limits'] if case['has_limits'] else None,
+            'errs': [e and has for e, has in zip(s['errs'], (True, case['has_min'], case['has_max'], case['has_limits']))],
+            'evs': s['evs'], 'ok': s['ok'], 'exc': s['exc']}
 
 
 def gen_limits(rng, big):
@@ -770,6 +1009,20 @@ def gen_limits(rng, big):
     value0 = inside()
     pname = rng.choice(['target', 'a', 'ramp'])
     hasW = rng.random() < 0.6
+    # the class layout: 1..4 classes in MRO order, the last one declares <p>; every limit parameter is declared in some class
+    # (the class of <p>, a subclass, a plain mixin; now and then declared again further up), any class may define check_<p>
+    ncls = rng.choice([1, 1, 2, 2, 3, 3, 4])
+    layers = [[False, False, False, rng.random() < (0.15 if ncls == 1 else 0.3), 0 < i < ncls - 1 and rng.random() < 0.3]
+              for i in range(ncls)]
+    for k, post in enumerate(('min', 'max', 'limits')):
+        if has[post]:
+            layers[rng.randrange(ncls)][k] = True
+            if rng.random() < 0.1:
+                layers[rng.randrange(ncls)][k] = True
+    wlayer = rng.choice([i for i in range(ncls) if not layers[i][4]])
+
+    def checks():
+        return [rng.choice(['pass'] * 8 + [fail_tag(rng), 'stop']) if layer[3] else 'pass' for layer in layers]
     n = rng.randint(1, 30 if big else 12)
     ops = []
     for _ in range(n):
@@ -778,7 +1031,7 @@ def gen_limits(rng, big):
         if r < 0.45:
             x = anyval()
             w = rng.choice(['none', 'none', x, fail_tag(rng), inside()])
-            ops.append(['write', x, w, via])
+            ops.append(['write', x, checks(), w, via])
         elif r < 0.55 and has['min']:
             ops.append(['writeMin', anyval(), via])
         elif r < 0.65 and has['max']:
@@ -801,9 +1054,9 @@ def gen_limits(rng, big):
             ops.append(['assignLimits', a, b, 'drv'])
         else:
             x = anyval()
-            ops.append(['write', x, 'none', via])
+            ops.append(['write', x, checks(), 'none', via])
     return {'kind': 'limits', 'int': is_int, 'lo': lo, 'hi': hi, 'pname': pname, 'has_min': has['min'], 'has_max': has['max'],
-            'has_limits': has['limits'], 'hasW': hasW, 'value0': value0, 'ops': ops}
+            'has_limits': has['limits'], 'layers': layers, 'wlayer': wlayer, 'hasW': hasW, 'value0': value0, 'ops': ops}
 
 
 def sig_limits(case, bad, trace):
@@ -862,7 +1115,7 @@ def impl_control(case):
         cfg[f'out{o}'] = {'cls': Out, 'description': 'x'}
     for k in range(n):
         cfg[f'in{k}'] = {'cls': In, 'description': 'x', 'output_module': f'out{outs_of[k]}'}
-    node, conn = new_node(cfg)
+    node, conn = new_node(cfg, case.get('omit', False))
     outs = [node.modules[f'out{o}'] for o in range(nout)]
     ins = [node.modules[f'in{k}'] for k in range(n)]
 
@@ -884,7 +1137,9 @@ def impl_control(case):
                 evs.append(['act', int(mod[2:]), bool(msg[2][0])])
         conn.msgs.clear()
         return {'cb': [cb_of(o, outs[o].controlled_by.name) for o in range(nout)],
-                'act': [bool(m.control_active) for m in ins], 'evs': evs, 'ok': ok}
+                'act': [bool(m.control_active) for m in ins],
+                'cbP': [pending(m.parameters['controlled_by']) for m in outs],
+                'actP': [pending(m.parameters['control_active']) for m in ins], 'evs': evs, 'ok': ok}
 
     trace = [snapshot(True)]
     for op in case['ops']:
@@ -967,24 +1222,33 @@ def prepare(case):
     kind = case['kind']
     if kind == 'struct':
         trace = impl_struct(case)
-        return trace, wire_struct(case), judge_struct_req(case, trace), trace
+        return trace, wire_struct(case, trace), judge_struct_req(case, trace), trace
     if kind == 'floatenum':
         vdict, lo, hi, trace = impl_floatenum(case)
         model, judge, canon = fe_requests(case, vdict, lo, hi, trace)
         return trace, model, judge, canon
     if kind == 'limits':
+        case = limits_case(case)
         trace = impl_limits(case)
-        return trace, wire_limits(case), judge_limits_req(trace), [limits_canon(case, t) for t in trace]
+        return trace, wire_limits(case, trace), judge_limits_req(case, trace), [limits_canon(case, t) for t in trace]
+    if kind == 'labels':
+        impl = impl_labels(case)
+        model, canon = labels_requests(case, impl)
+        # nothing to judge: the statement is about histories on the constructed pair; `lo - 1` never belongs to the (empty) valuedict
+        return [dict(impl, idx=0, value=0, write=None)], model, {'p': 'C18', 'k': 'judge_floatenum', 'vdict': [], 'trace': []}, [canon]
     if kind == 'control':
         trace = impl_control(case)
         ops = wire_control_ops(case)
-        return trace, {'p': 'C18', 'k': 'control', 'nout': case['nout'], 'outs': case['outs'], 'ops': ops}, \
+        return trace, {'p': 'C18', 'k': 'control', 'nout': case['nout'], 'outs': case['outs'], 'omit': bool(case.get('omit')),
+                       'cbP0': trace[0]['cbP'], 'actP0': trace[0]['actP'], 'ops': ops}, \
             {'p': 'C18', 'k': 'judge_control', 'nout': case['nout'], 'outs': case['outs'], 'ops': ops,
              'trace': [{'cb': t['cb'], 'act': t['act']} for t in trace]}, trace
     raise ValueError(kind)
 
 
 def model_obs(case, answer):
+    if case['kind'] == 'labels':
+        return [dict(answer, edict=sorted(answer['edict'])) if answer['ok'] else answer]
     states = [answer['init']] + answer['states']
     if case['kind'] == 'limits':
         return [model_limits_canon(case, s) for s in states]
@@ -994,9 +1258,9 @@ def model_obs(case, answer):
 def impl_obs(case, canon):
     kind = case['kind']
     if kind == 'struct':
-        return [{k: t[k] for k in ('struct', 'mem', 'evs', 'ok', 'exc')} for t in canon]
+        return [{k: t[k] for k in ('struct', 'mem', 'sP', 'mP', 'evs', 'ok', 'exc')} for t in canon]
     if kind == 'control':
-        return [{k: t[k] for k in ('cb', 'act', 'evs', 'ok')} for t in canon]
+        return [{k: t[k] for k in ('cb', 'act', 'cbP', 'actP', 'evs', 'ok')} for t in canon]
     return canon
 
 
@@ -1064,6 +1328,8 @@ def nontrivial(case, trace):
         return oks >= 2 and len({json.dumps(t['struct']) for t in trace}) >= 3
     if kind == 'floatenum':
         return len({t['idx'] for t in trace}) >= 2 and any(t['write'] is not None and t['ok'] for t in trace)
+    if kind == 'labels':
+        return trace[0]['ok'] and len(trace[0]['vdict']) >= 2 and any(not isinstance(e, str) for e in case['labels'])
     if kind == 'limits':
         acc = any(t['write'] is not None and t['ok'] for t in trace)
         rej = any(t['write'] is not None and not t['ok'] for t in trace)
@@ -1072,8 +1338,20 @@ def nontrivial(case, trace):
     return len({json.dumps([t['cb'], t['act']]) for t in trace}) >= 3 and fails == 0
 
 
-SAMPLES_PER_KIND = {'struct': 2, 'floatenum': 1, 'limits': 1, 'control': 2}
-GENS = {'struct': gen_struct, 'floatenum': gen_floatenum, 'limits': gen_limits, 'control': gen_control}
+SAMPLES_PER_KIND = {'struct': 2, 'floatenum': 1, 'limits': 1, 'control': 2, 'labels': 1}
+GENS = {'struct': gen_struct, 'floatenum': gen_floatenum, 'limits': gen_limits, 'control': gen_control, 'labels': gen_labels}
+
+
+def constructible(case):
+    """a float/enum case whose label list the tree under test refuses becomes a case of the labels stream"""
+    if case['kind'] != 'floatenum':
+        return case
+    from frappy.extparams import FloatEnumParam
+    try:
+        FloatEnumParam('g', [tuple(e) if isinstance(e, list) else e for e in case['labels']], case['unit'])
+        return case
+    except Exception:
+        return {'kind': 'labels', 'labels': case['labels'], 'unit': case['unit'], 'ops': []}
 
 
 def run(ctx):
@@ -1081,7 +1359,9 @@ def run(ctx):
     res.rule = ('generated modules x operation histories (depth <= 12 quick / 30 thorough), client requests through the real dispatcher '
                 'and driver-side calls/assignments mixed.  non-trivial: struct - at least two accepted operations and three distinct '
                 'struct values; floatenum - the index changed and a float write was accepted; limits - a write accepted, a write '
-                'refused and a limit moved; control - at least three distinct (controlled_by, control_active) states')
+                'refused and a limit moved; control - at least three distinct (controlled_by, control_active) states; labels - an '
+                'accepted label list with at least two values, not all bare labels.  40 % of the histories run with omission of '
+                'unchanged updates (omit_unchanged_within = 10^6 s), the others with 0')
     big = ctx.tier == 'thorough' or ctx.escalated
     rng = ctx.rng
     cases = []
@@ -1090,11 +1370,17 @@ def run(ctx):
         for fn in sorted(os.listdir(cdir)):
             with open(os.path.join(cdir, fn)) as f:
                 cases.append(json.load(f)['case'])
+    cases = [constructible(c) for c in cases]
     ncorpus = len(cases)
-    per = ctx.budget(200, 6250)
+    per = ctx.budget(500, 6250)
     for kind in ('struct', 'floatenum', 'limits', 'control'):
         for _ in range(per):
-            cases.append(GENS[kind](rng, big))
+            case = GENS[kind](rng, big)
+            if 'omit' not in case and case['kind'] != 'labels':
+                case['omit'] = rng.random() < 0.4
+            cases.append(case)
+    for _ in range(per):       # glue in front of the float/enum model: correspondence only
+        cases.append(gen_labels(rng, big))
 
     shrunk = {}
     chunk = 400
@@ -1143,13 +1429,34 @@ def _run_chunk(ctx, res, cases, offset, ncorpus, shrunk):
         for op in case['ops']:
             res.count(f'{kind}.via-{op[-1]}')
         if kind == 'struct':
-            res.count('struct.layout-combined' if case['combined'] else 'struct.layout-permember')
+            sc_ = struct_case(case)
+            res.count('struct.layout-' + {(True, True): 'combined', (True, False): 'only-read-struct', (False, True): 'only-write-struct',
+                                          (False, False): 'permember'}[(sc_['hasRS'], sc_['hasWS'])])
+            if sc_['combined'] and (sc_['hasR'] or sc_['hasW']):
+                res.count('struct.combined-with-own-member-methods')
+        if kind == 'floatenum':
+            res.count('floatenum.labels-si-scaled' if case.get('scaled') else 'floatenum.labels-catalogue')
+        if kind == 'labels':
+            res.count('labels.accepted' if trace[0]['ok'] else 'labels.refused')
+            res.count(f'labels.n-{len(case["labels"])}')
+        if kind == 'limits':
+            lay = limits_case(case)['layers']
+            res.count(f'limits.classes-{len(lay)}')
+            res.count('limits.with-check-method' if any(x[3] for x in lay) else 'limits.no-check-method')
+            if any(x[4] for x in lay):
+                res.count('limits.with-mixin')
+            for t in trace[1:]:
+                if t['stopAt'] is not None:
+                    res.count('limits.check-returned-true')
         if nontrivial(case, trace):
             res.nontriv(case)
         if len(res.samples) < 6 and j >= ncorpus and len(case['ops']) <= 5 and nontrivial(case, trace) \
                 and sum(1 for s in res.samples if s['kind'] == kind) < SAMPLES_PER_KIND[kind]:
             res.samples.append({'kind': kind, 'case': case, 'observed': impl_obs(case, canon)})
-        if ctx.model_ok:
+        if case.get('omit'):
+            res.count(f'{kind}.omit-unchanged-updates')
+        # histories run with omission of unchanged updates are judged; compared with the model where the model covers it
+        if ctx.model_ok and (not case.get('omit') or kind in OMIT_MODELLED):
             mo, io = model_obs(case, model), impl_obs(case, canon)
             d = first_diff(mo, io)
             if d is not None and len(res.disagreements) < 20:
@@ -1171,7 +1478,9 @@ def _run_chunk(ctx, res, cases, offset, ncorpus, shrunk):
                     small, strace, sbad = case, trace, bad
                 else:
                     sbad = sigs[sig]
-                what = f'{kind}: after {json.dumps(small["ops"][:sbad])} the recorded values are ' \
+                layout = f' (classes in MRO order, [min, max, limits declared, own check method, mixin]: ' \
+                         f'{json.dumps(limits_case(small)["layers"])})' if kind == 'limits' else ''
+                what = f'{kind}{layout}: after {json.dumps(small["ops"][:sbad])} the recorded values are ' \
                        f'{json.dumps({k: v for k, v in strace[sbad].items() if k != "evs"})}'
                 res.violations.append({'sig': sig, 'what': what, 'case': small,
                                        'detail': {'first_bad_index': sbad, 'original_ops': case['ops']}})
